@@ -38,33 +38,72 @@ fn soc_with_scaling<const P: u16, const D: usize>() -> SecondOrderCone<Fp<P>> {
     c
 }
 
-/// W and W^-1 are mutually inverse (both orders), W is symmetric (x'Wy = y'Wx)
-fn soc_w_winv<const P: u16, const D: usize>() {
+/// W^-1 (W x) = x
+fn soc_winv_w<const P: u16, const D: usize>() {
     let mut c = soc_with_scaling::<P, D>();
     let x: [Fp<P>; D] = anyv();
-    let y: [Fp<P>; D] = anyv();
     let mut wx = [Fp::<P>::zero(); D];
     let mut back = [Fp::<P>::zero(); D];
     c.mul_W(MatrixShape::N, &mut wx, &x, Fp::one(), Fp::zero());
     c.mul_Winv(MatrixShape::N, &mut back, &wx, Fp::one(), Fp::zero());
-    let mut wix = [Fp::<P>::zero(); D];
-    let mut back2 = [Fp::<P>::zero(); D];
-    c.mul_Winv(MatrixShape::T, &mut wix, &x, Fp::one(), Fp::zero());
-    c.mul_W(MatrixShape::T, &mut back2, &wix, Fp::one(), Fp::zero());
-    let mut wy = [Fp::<P>::zero(); D];
-    c.mul_W(MatrixShape::N, &mut wy, &y, Fp::one(), Fp::zero());
-    let mut xwy = Fp::<P>::zero();
-    let mut ywx = Fp::<P>::zero();
     let mut i = 0;
     while i < D {
         assert!(back[i] == x[i], "Winv_W_is_identity");
-        assert!(back2[i] == x[i], "W_Winv_is_identity");
-        xwy = xwy + x[i] * wy[i];
-        ywx = ywx + y[i] * wx[i];
         i += 1;
     }
-    assert!(xwy == ywx, "W_is_symmetric");
-    // alpha / beta form: y <- a W x + b y
+    kani::cover!(c.w[1].0 != 0 && x[0].0 == 2 && wx[0].0 == 5, "nontrivial scaling point");
+}
+
+/// W (W^-1 x) = x
+fn soc_w_winv<const P: u16, const D: usize>() {
+    let mut c = soc_with_scaling::<P, D>();
+    let x: [Fp<P>; D] = anyv();
+    let mut wix = [Fp::<P>::zero(); D];
+    let mut back = [Fp::<P>::zero(); D];
+    c.mul_Winv(MatrixShape::T, &mut wix, &x, Fp::one(), Fp::zero());
+    c.mul_W(MatrixShape::T, &mut back, &wix, Fp::one(), Fp::zero());
+    let mut i = 0;
+    while i < D {
+        assert!(back[i] == x[i], "W_Winv_is_identity");
+        i += 1;
+    }
+    kani::cover!(c.w[1].0 != 0 && x[0].0 == 2, "nontrivial scaling point");
+}
+
+/// W is symmetric: the matrix read off column by column (W e_j) equals its transpose, and the
+/// transposed application is the same operator
+fn soc_w_symmetric<const P: u16, const D: usize>() {
+    let mut c = soc_with_scaling::<P, D>();
+    let mut m = [[Fp::<P>::zero(); D]; D];
+    let mut mt = [[Fp::<P>::zero(); D]; D];
+    let mut j = 0;
+    while j < D {
+        let mut e = [Fp::<P>::zero(); D];
+        e[j] = Fp::one();
+        c.mul_W(MatrixShape::N, &mut m[j], &e, Fp::one(), Fp::zero());
+        c.mul_W(MatrixShape::T, &mut mt[j], &e, Fp::one(), Fp::zero());
+        j += 1;
+    }
+    let mut i = 0;
+    while i < D {
+        let mut j = 0;
+        while j < D {
+            assert!(m[i][j] == m[j][i], "W_is_symmetric");
+            assert!(m[i][j] == mt[i][j], "transposed_application_is_the_same_operator");
+            j += 1;
+        }
+        i += 1;
+    }
+    kani::cover!(c.w[1].0 != 0 && m[0][1].0 == 3, "nontrivial scaling point");
+}
+
+/// mul_W implements y <- a W x + b y
+fn soc_w_alpha_beta<const P: u16, const D: usize>() {
+    let mut c = soc_with_scaling::<P, D>();
+    let x: [Fp<P>; D] = anyv();
+    let y: [Fp<P>; D] = anyv();
+    let mut wx = [Fp::<P>::zero(); D];
+    c.mul_W(MatrixShape::N, &mut wx, &x, Fp::one(), Fp::zero());
     let a = Fp::<P>::any();
     let b = Fp::<P>::any();
     let mut acc = y;
@@ -74,25 +113,26 @@ fn soc_w_winv<const P: u16, const D: usize>() {
         assert!(acc[i] == a * wx[i] + b * y[i], "mul_W_alpha_beta_form");
         i += 1;
     }
-    kani::cover!(c.w[1].0 != 0 && x[0].0 == 2 && wx[0].0 == 5, "nontrivial scaling point");
+    kani::cover!(c.w[1].0 != 0 && a.0 == 2 && b.0 == 3, "nontrivial scaling point");
 }
 
-#[kani::proof]
-#[kani::unwind(5)]
-pub fn c13_soc3_w_winv() {
-    soc_w_winv::<13, 3>();
+macro_rules! soc_w_harness {
+    ($name:ident, $f:ident, $p:expr, $d:expr, $unwind:expr) => {
+        #[kani::proof]
+        #[kani::unwind($unwind)]
+        pub fn $name() {
+            $f::<$p, $d>();
+        }
+    };
 }
-/// same over GF(7) (3-bit field: cheaper queries; polynomial degrees involved are <= 4)
-#[kani::proof]
-#[kani::unwind(5)]
-pub fn c13_soc3_w_winv_p7() {
-    soc_w_winv::<7, 3>();
-}
-#[kani::proof]
-#[kani::unwind(7)]
-pub fn c13_soc5_w_winv() {
-    soc_w_winv::<13, 5>();
-}
+soc_w_harness!(c13_soc3_winv_w_p7, soc_winv_w, 7, 3, 5);
+soc_w_harness!(c13_soc3_w_winv_p7, soc_w_winv, 7, 3, 5);
+soc_w_harness!(c13_soc3_w_symmetric_p7, soc_w_symmetric, 7, 3, 5);
+soc_w_harness!(c13_soc3_w_alpha_beta_p7, soc_w_alpha_beta, 7, 3, 5);
+soc_w_harness!(c13_soc3_winv_w, soc_winv_w, 13, 3, 5);
+soc_w_harness!(c13_soc3_w_winv, soc_w_winv, 13, 3, 5);
+soc_w_harness!(c13_soc3_w_symmetric, soc_w_symmetric, 13, 3, 5);
+soc_w_harness!(c13_soc5_winv_w, soc_winv_w, 13, 5, 7);
 
 /// mul_Hs = W'W, and the dense block written into the KKT matrix (get_Hs) is that same operator
 #[kani::proof]
@@ -181,8 +221,19 @@ fn hs_block<const P: u16>() {
 /// this harness, see DESIGN.md §6.6) - it is therefore NOT decided here.
 fn soc_update_scaling<const P: u16, const D: usize>(check_sparse: bool) {
     let mut c = SecondOrderCone::<Fp<P>>::new(D);
-    let s: [Fp<P>; D] = anyv();
-    let z: [Fp<P>; D] = anyv();
+    let mut s: [Fp<P>; D] = anyv();
+    let mut z: [Fp<P>; D] = anyv();
+    if D > 3 {
+        // dimension 5: only the first two tail entries are symbolic, the rest are zero.  The code treats
+        // all tail entries alike, so a wrong coefficient in u, v, d or w shows with one active entry;
+        // with ten free field elements and eight nested square roots the query does not finish in an hour.
+        let mut i = 3;
+        while i < D {
+            s[i] = Fp::zero();
+            z[i] = Fp::zero();
+            i += 1;
+        }
+    }
     let ok = c.update_scaling(&s, &z, Fp::one(), ScalingStrategy::PrimalDual);
     kani::cover!(ok, "opt: update_scaling succeeded (all roots exist)");
     kani::assume(ok);
@@ -268,19 +319,26 @@ pub fn c13_soc5_update_scaling_sparse_p31() {
 #[kani::proof]
 #[kani::unwind(6)]
 pub fn c13_soc3_jordan() {
+    jordan::<13>();
+}
+#[kani::proof]
+#[kani::unwind(6)]
+pub fn c13_soc3_jordan_p7() {
+    jordan::<7>();
+}
+fn jordan<const P: u16>() {
     const D: usize = 3;
-    type G = F13;
-    let mut c = soc_with_scaling::<13, D>();
-    let y: [G; D] = anyv();
-    let x: [G; D] = anyv();
-    let mut yx = [G::zero(); D];
+    let mut c = soc_with_scaling::<P, D>();
+    let y: [Fp<P>; D] = anyv();
+    let x: [Fp<P>; D] = anyv();
+    let mut yx = [Fp::<P>::zero(); D];
     c.circ_op(&mut yx, &y, &x);
     assert!(yx[0] == y[0] * x[0] + y[1] * x[1] + y[2] * x[2], "circ_op_head_is_inner_product");
     assert!(yx[1] == y[0] * x[1] + x[0] * y[1] && yx[2] == y[0] * x[2] + x[0] * y[2], "circ_op_tail_is_arrow_product");
     // inverse (defined when y0 != 0 and the residual of y is nonzero)
     let res = y[0] * y[0] - y[1] * y[1] - y[2] * y[2];
     kani::assume(y[0].0 != 0 && res.0 != 0);
-    let mut back = [G::zero(); D];
+    let mut back = [Fp::<P>::zero(); D];
     c.inv_circ_op(&mut back, &y, &yx);
     let mut i = 0;
     while i < D {
@@ -288,23 +346,23 @@ pub fn c13_soc3_jordan() {
         i += 1;
     }
     // affine_ds = lambda o lambda
-    let lam: [G; D] = anyv();
+    let lam: [Fp<P>; D] = anyv();
     c.λ.copy_from_slice(&lam);
-    let mut ds = [G::zero(); D];
+    let mut ds = [Fp::<P>::zero(); D];
     c.affine_ds(&mut ds, &x);
     assert!(ds[0] == lam[0] * lam[0] + lam[1] * lam[1] + lam[2] * lam[2] && ds[1] == lam[0] * lam[1] + lam[0] * lam[1], "affine_ds_is_lambda_circ_lambda");
     // combined shift
-    let dz: [G; D] = anyv();
-    let dsv: [G; D] = anyv();
-    let sm = G::any();
-    let mut wdz = [G::zero(); D];
-    let mut wids = [G::zero(); D];
-    c.mul_W(MatrixShape::N, &mut wdz, &dz, G::one(), G::zero());
-    c.mul_Winv(MatrixShape::T, &mut wids, &dsv, G::one(), G::zero());
-    let mut want = [G::zero(); D];
+    let dz: [Fp<P>; D] = anyv();
+    let dsv: [Fp<P>; D] = anyv();
+    let sm = Fp::<P>::any();
+    let mut wdz = [Fp::<P>::zero(); D];
+    let mut wids = [Fp::<P>::zero(); D];
+    c.mul_W(MatrixShape::N, &mut wdz, &dz, Fp::<P>::one(), Fp::<P>::zero());
+    c.mul_Winv(MatrixShape::T, &mut wids, &dsv, Fp::<P>::one(), Fp::<P>::zero());
+    let mut want = [Fp::<P>::zero(); D];
     c.circ_op(&mut want, &wids, &wdz);
     want[0] = want[0] - sm;
-    let mut shift = [G::zero(); D];
+    let mut shift = [Fp::<P>::zero(); D];
     let mut step_z = dz;
     let mut step_s = dsv;
     c.combined_ds_shift(&mut shift, &mut step_z, &mut step_s, sm);
